@@ -7,18 +7,20 @@ from .n0struct_arrays import split_pair
 def default_parse_value(key_value, default_value):
     stripped_value = key_value[1].strip()
     if isnumber(stripped_value):
-        if '.' in stripped_value:
-            return round(float(stripped_value), 7)
-        else:
-            return int(stripped_value)
+        try:
+            if '.' in stripped_value:
+                return round(float(stripped_value), 7)
+            else:
+                return int(stripped_value)
+        except ValueError:
+            pass    # isnumber() accepts more than float()/int(): '.', '- 5', superscript digits; keep such values as text
+    if len(stripped_value) >=2 and (
+                ( stripped_value.startswith('"') and stripped_value.endswith('"') )
+             or ( stripped_value.startswith("'") and stripped_value.endswith("'") )
+    ):
+        return stripped_value[1:-1]
     else:
-        if len(stripped_value) >=2 and (
-                    ( stripped_value.startswith('"') and stripped_value.endswith('"') )
-                 or ( stripped_value.startswith("'") and stripped_value.endswith("'") )
-        ):
-            return stripped_value[1:-1]
-        else:
-            return stripped_value
+        return stripped_value
 
 
 def parse_ini(
